@@ -93,6 +93,9 @@ if __name__ == '__main__':
     elif a[1] == 'checkall':
         names = sorted(n for n in os.listdir(BD) if os.path.isdir(os.path.join(BD, n)))
         nw = int(a[2]) if len(a) > 2 else 4
+        only = a[3:]  # optional: only these changes (RESULTS.json is then left alone)
+        if only:
+            names = [n for n in names if n in only]
         roots = []
         for k in range(nw):
             wt = '/tmp/bc_root_%d' % k; vd = '/tmp/bc_verif_%d' % k
@@ -114,6 +117,7 @@ if __name__ == '__main__':
             list(ex.map(job, names))
         for wt, vd in roots:
             sh('git -C /repo worktree remove --force %s' % wt); shutil.rmtree(vd, ignore_errors=True)
-        json.dump({'rules_reporting_each_benign_change': RESULT}, open(os.path.join(BD, 'RESULTS.json'), 'w'), indent=1, sort_keys=True)
+        if not only:
+            json.dump({'rules_reporting_each_benign_change': RESULT}, open(os.path.join(BD, 'RESULTS.json'), 'w'), indent=1, sort_keys=True)
         alarms = [n for n in names if RESULT.get(n)]
         print('benign changes: %d, silent: %d, false alarms: %s' % (len(names), len(names) - len(alarms), alarms))
